@@ -35,6 +35,11 @@ package notify
 //@   ensures [not-muted-passes] result2 == nil && !(called("TimeMuter).Mutes") && ret("TimeMuter).Mutes")) && called("SetMuted") ==> result1 == alerts
 //@   ensures [decided-by-intervals] result2 == nil && result1 == nil && alerts != nil ==> called("TimeMuter).Mutes") && ret("TimeMuter).Mutes")
 //@   at call SetMuted assert [marker-names] called("TimeMuter).Mutes") ? arg3 == ret1("TimeMuter).Mutes") : arg3 == nil
+//@   at call TimeMuter).Mutes assert [intervals-and-instant-from-context] arg1 == ret("notify.MuteTimeIntervalNames") && ret1("notify.MuteTimeIntervalNames") && arg2 == ret("notify.Now") && ret1("notify.Now") && len(arg1) > 0
+//@   ensures [route-with-intervals-is-checked] called("notify.MuteTimeIntervalNames") && ret1("notify.MuteTimeIntervalNames") && len(ret("notify.MuteTimeIntervalNames")) > 0 && (!called("notify.Now") || ret1("notify.Now")) ==> called("TimeMuter).Mutes")
+//@   ensures [missing-route-or-group-is-an-error] (called("notify.RouteID") && !ret1("notify.RouteID")) || (called("notify.GroupKey") && !ret1("notify.GroupKey")) ==> result2 != nil && result1 == nil
+//@   ensures [marker-updated-or-error] result2 == nil ==> called("SetMuted")
+//@   at call SetMuted assert [marker-of-this-group] arg1 == ret("notify.RouteID") && ret1("notify.RouteID") && arg2 == ret("notify.GroupKey") && ret1("notify.GroupKey")
 //@   noeffect TimeMuter).Mutes SetMuted
 //@   assigns nothing
 
@@ -48,6 +53,11 @@ package notify
 //@   ensures [no-active-intervals-passes] result2 == nil && !called("TimeMuter).Mutes") && called("SetMuted") ==> result1 == alerts
 //@   ensures [decided-by-intervals] result2 == nil && result1 == nil && alerts != nil ==> called("TimeMuter).Mutes") && !ret("TimeMuter).Mutes")
 //@   at call SetMuted assert [marker-names] (called("TimeMuter).Mutes") && !ret("TimeMuter).Mutes")) ? len(arg3) > 0 : arg3 == nil
+//@   at call TimeMuter).Mutes assert [intervals-and-instant-from-context] arg1 == ret("notify.ActiveTimeIntervalNames") && ret1("notify.ActiveTimeIntervalNames") && arg2 == ret("notify.Now") && ret1("notify.Now") && len(arg1) > 0
+//@   ensures [route-with-intervals-is-checked] called("notify.ActiveTimeIntervalNames") && ret1("notify.ActiveTimeIntervalNames") && len(ret("notify.ActiveTimeIntervalNames")) > 0 && (!called("notify.Now") || ret1("notify.Now")) ==> called("TimeMuter).Mutes")
+//@   ensures [missing-route-or-group-is-an-error] (called("notify.RouteID") && !ret1("notify.RouteID")) || (called("notify.GroupKey") && !ret1("notify.GroupKey")) ==> result2 != nil && result1 == nil
+//@   ensures [marker-updated-or-error] result2 == nil ==> called("SetMuted")
+//@   at call SetMuted assert [marker-of-this-group] arg1 == ret("notify.RouteID") && ret1("notify.RouteID") && arg2 == ret("notify.GroupKey") && ret1("notify.GroupKey")
 //@   noeffect TimeMuter).Mutes SetMuted
 //@   assigns nothing
 
@@ -68,6 +78,9 @@ package notify
 //@   at call Integration).Notify assert [no-resolved-when-off] !ret("Integration).SendResolved") ==> (forall i int :: 0 <= i && i < len(arg2) ==> arg2[i] != nil && !resolvedAtN(arg2[i], first("time.Now")))
 //@   at call Integration).Notify assert [sent-are-batch-alerts] forall i int :: 0 <= i && i < len(arg2) ==> (exists j int :: 0 <= j && j < len(alerts) && arg2[i] == alerts[j])
 //@   at call Integration).Notify assert [no-send-after-final-outcome] !called("Integration).Notify") || (ret1("Integration).Notify") != nil && ret("Integration).Notify"))
+//@   at call Integration).Notify assert [every-firing-alert-is-sent] !ret("Integration).SendResolved") ==> (forall j int :: 0 <= j && j < len(alerts) && !resolvedAtN(alerts[j], clock()) ==> alerts[j] in elems(arg2))
+//@   ensures [success-without-sending-only-if-nothing-fires] !called("Integration).Notify") && result2 == nil ==> (called("notify.FiringAlerts") && len(ret("notify.FiringAlerts")) == 0) || (called("Context).Err") && ret("Context).Err") == nil)
+//@   ensures [no-quiet-cancel] result2 == nil ==> result1 == alerts || (called("Context).Err") && ret("Context).Err") == nil)
 //@   ensures [success-means-delivered] result2 == nil && called("Integration).Notify") && result1 != nil ==> ret1("Integration).Notify") == nil && result1 == alerts
 //@   ensures [unrecoverable-fails] called("Integration).Notify") && ret1("Integration).Notify") != nil && !ret("Integration).Notify") ==> result2 != nil
 //@   ensures [input-untouched] forall j int :: 0 <= j && j < len(alerts) ==> alerts[j] == old(alerts[j])
@@ -75,6 +88,8 @@ package notify
 //@   loop 1 invariant rangeindex < len(alerts) && (sent == nil || fresh(sent)) && (called("time.Now") ==> first("time.Now") <= clock()) && (!called("time.Now") ==> len(sent) == 0)
 //@   loop 1 invariant forall i int :: 0 <= i && i < len(sent) ==> sent[i] != nil && !resolvedAtN(sent[i], first("time.Now")) && (exists j int :: 0 <= j && j < len(alerts) && sent[i] == alerts[j])
 //@   loop 1 invariant forall j int :: 0 <= j && j < len(alerts) ==> alerts[j] == old(alerts[j])
+//@   loop 1 invariant forall j int :: 0 <= j && j <= rangeindex && !resolvedAtN(alerts[j], clock()) ==> alerts[j] in elems(sent)
+//@   loop 2 invariant !ret("Integration).SendResolved") ==> (forall j int :: 0 <= j && j < len(alerts) && !resolvedAtN(alerts[j], clock()) ==> alerts[j] in elems(sent))
 //@   loop 2 invariant !called("Integration).Notify") || (ret1("Integration).Notify") != nil && ret("Integration).Notify"))
 //@   loop 2 invariant forall j int :: 0 <= j && j < len(alerts) ==> alerts[j] == old(alerts[j])
 //@   loop 2 invariant !ret("Integration).SendResolved") ==> (forall i int :: 0 <= i && i < len(sent) ==> sent[i] != nil && !resolvedAtN(sent[i], first("time.Now")))
@@ -155,6 +170,10 @@ package notify
 //@   at call NotificationLog).Log assert [expiry-twice-repeat] called("RepeatInterval") && arg6 == 2 * ret("RepeatInterval")
 //@   at call NotificationLog).Log assert [logs-what-was-sent] arg3 == ret("FiringAlerts") && arg4 == ret("ResolvedAlerts") && arg1 == n.recv
 //@   ensures [returns-batch] called("NotificationLog).Log") ==> result1 == alerts && result2 == ret("NotificationLog).Log")
+//@   at call NotificationLog).Log assert [context-complete] ret1("notify.GroupKey") && ret1("notify.FiringAlerts") && ret1("notify.ResolvedAlerts") && ret1("notify.RepeatInterval") && arg2 == ret("notify.GroupKey")
+//@   ensures [logged-whenever-the-context-is-complete] called("notify.GroupKey") && ret1("notify.GroupKey") && called("notify.FiringAlerts") && ret1("notify.FiringAlerts") && called("notify.ResolvedAlerts") && ret1("notify.ResolvedAlerts")
+//@             && called("notify.RepeatInterval") && ret1("notify.RepeatInterval") ==> called("NotificationLog).Log")
+//@   ensures [incomplete-context-is-an-error] !called("NotificationLog).Log") ==> result2 != nil && result1 == nil
 //@   noeffect NotificationLog).Log RepeatInterval FiringAlerts ResolvedAlerts GroupKey NflogStore
 
 // C20: classification of an HTTP response: 2xx is success (no error, no retry); anything else is an error that is
